@@ -737,6 +737,10 @@ example : ((resolveIdentities (Oracle.ofNat 3) exR3 (exLink exR3) (fun _ => []))
       (res.vals ("a", "top"), res.vals ("b", "dup"), res.errs.length)) =
     some ([("a", "new"), ("a", "old")], [], 0) := by decide
 
+/-- The identityref leaf-less example still has hypotheses of `identityref_base_surviving` that can
+be met: from module `b` (sequence number 2) the base `pa:top` names the surviving `a:top`. -/
+example : (exR3.byId 2).map (fun b => refTarget exR3 exG3 b "pa:top") = some (some ("a", "top")) := by decide
+
 /-! ### hypothesis (b) is needed, and goyang does not enforce it
 
 ```
@@ -771,6 +775,25 @@ theorem colon_in_module_name_misattributes :
       (res.vals ("m", "a:b"), res.vals ("m:a", "b"))) = some ([], [("z", "d3")]) :=
   ⟨by decide, by show exG4.verts.Nodup; decide, linkOK_of_all (by decide), regOK_of_entries (by decide),
     Derives.base (by decide), by decide⟩
+/-- The oracle that walks every map in insertion order. -/
+def exIdOracle : Oracle := ⟨fun _ l => l⟩
+theorem exIdOracle_valid : exIdOracle.Valid := fun _ _ l => List.Perm.refl l
+
+/-- `values_are_derived` with hypothesis (b) dropped is false of the model (and of the Go code). -/
+theorem values_are_derived_without_b_fails :
+    ¬ ∀ (r : Registry) (lk : Link), Linked r lk → (∀ k m, r.getModule k = some m → m.isSub = false) →
+      ∀ G, graph r = some G → OneStatementPerVertex G → ∀ o : Oracle, o.Valid →
+      ∃ res, resolveIdentities o r lk (fun _ => []) = some res ∧ ∀ i ∈ G.verts, ValuesOK G i (res.vals i) := by
+  intro h
+  obtain ⟨hg, hone, hl, hreg, hd, _⟩ := colon_in_module_name_misattributes
+  obtain ⟨res, hres, hv⟩ := h exR4 (exLink exR4) hl hreg exG4 hg hone exIdOracle exIdOracle_valid
+  have hmem := ((hv ("m", "a:b") (by decide)).exact ("z", "d3")).mpr hd
+  have hnil : (resolveIdentities exIdOracle exR4 (exLink exR4) (fun _ => [])).map
+      (fun res => res.vals ("m", "a:b")) = some [] := by decide
+  rw [hres] at hnil
+  simp only [Option.map_some, Option.some.injEq] at hnil
+  rw [hnil] at hmem
+  cases hmem
 /-- … and the names of that example are not identifiers. -/
 example : isIdentifier "m:a" = false ∧ isIdentifier "a:b" = false ∧ isIdentifier "ietf-interfaces" = true := by decide
 
